@@ -235,10 +235,84 @@ theorem readPatchLoop_ne_panic : ∀ (fuel : Nat) (patch : List PatchOp) (acc : 
       · rename_i hp; exact absurd hp (readPatchHunk_ne_panic _)
       · exact readPatchLoop_ne_panic fuel _ _
 
+theorem readPatchCtxLoop_ne_panic : ∀ (fuel : Nat) (patch : List PatchOp) (acc : Diff)
+    (cs : List PatchCtx), readPatchCtxLoop fuel patch acc cs ≠ .panic
+  | 0, _, _, _ => by simp [readPatchCtxLoop]
+  | fuel + 1, patch, acc, cs => by
+    unfold readPatchCtxLoop
+    split
+    · simp
+    · split
+      · simp
+      · rename_i hp; exact absurd hp (readPatchHunk_ne_panic _)
+      · split
+        · exact readPatchCtxLoop_ne_panic fuel _ _ _
+        · split
+          · exact readPatchCtxLoop_ne_panic fuel _ _ _
+          · exact readPatchCtxLoop_ne_panic fuel _ _ _
+
+theorem ctxTestOK_ne_panic (h : Hunk) (t : PatchOp) (off : Int) : ctxTestOK h t off ≠ .panic := by
+  unfold ctxTestOK
+  split
+  · simp
+  · rename_i hp; exact absurd hp (readPointer_ne_panic _)
+  · simp
+
+theorem checkPatchCtx_ne_panic (h : Hunk) (c : PatchCtx) : checkPatchCtx h c ≠ .panic := by
+  have one : ∀ (t : Option PatchOp) (off : Int),
+      (match t with
+       | none => (Outcome.ok () : Outcome Unit)
+       | some t =>
+         match ctxTestOK h t off with
+         | .ok true => .ok ()
+         | .ok false => .err
+         | .err => .err
+         | .panic => .panic) ≠ .panic := by
+    intro t off
+    cases t with
+    | none => simp
+    | some t =>
+      have := ctxTestOK_ne_panic h t off
+      cases hc : ctxTestOK h t off with
+      | ok b => cases b <;> simp [hc]
+      | err => simp [hc]
+      | panic => exact absurd hc this
+  unfold checkPatchCtx
+  simp only
+  split
+  · exact one _ _
+  · rename_i e hne
+    intro he
+    exact one c.before (-1) he
+
+theorem checkPatchCtxs_ne_panic : ∀ (d : Diff) (cs : List PatchCtx), checkPatchCtxs d cs ≠ .panic
+  | [], _ => by simp [checkPatchCtxs]
+  | _ :: _, [] => by simp [checkPatchCtxs]
+  | h :: d, c :: cs => by
+    unfold checkPatchCtxs
+    split
+    · exact checkPatchCtxs_ne_panic d cs
+    · rename_i e hne
+      intro he
+      exact checkPatchCtx_ne_panic h c he
+
+theorem readPatchOps_ne_panic (ops : List PatchOp) : readPatchOps ops ≠ .panic := by
+  unfold readPatchOps
+  split
+  · split
+    · split
+      · simp
+      · simp
+      · rename_i hp; exact absurd hp (checkPatchCtxs_ne_panic _ _)
+    · simp
+    · rename_i hp; exact absurd hp (readPatchCtxLoop_ne_panic _ _ _ _)
+  · simp
+  · rename_i hp; exact absurd hp (readPatchLoop_ne_panic _ _ _)
+
 theorem readPatchDoc_ne_panic (doc : Json) : readPatchDoc doc ≠ .panic := by
   unfold readPatchDoc
   split
-  · exact readPatchLoop_ne_panic _ _ _
+  · exact readPatchOps_ne_panic _
   · simp
   · rename_i hp; exact absurd hp (patchOpsOfJson_ne_panic _)
 
